@@ -339,7 +339,7 @@ for t, T, n, uw in TYPES:
     stub = DIV32 if t != "p32" else LLDIV
     reg("C16",
         H("c16_%s_int_casts" % t, "c16::%s::int_casts" % t, unwind=uw, funcs=["%s::to_{i8,i16,i32,i64,isize,u8,u16,u32,u64,usize}, From<%s> for the integer types" % (T, T)], space_bits=n, bound="every bit pattern, NaR included"),
-        H("c16_%s_div_family" % t, "c16::%s::div_family" % t, unwind=uw + 8, timeout=900, stubs=[stub], funcs=["%s::recip" % T, "%s::rem" % T, "%s::div_euclid" % T, "%s::rem_euclid" % T], space_bits=2 * n + 2,
+        H("c16_%s_div_family" % t, "c16::%s::div_family" % t, unwind=uw + 8, timeout=2400, tier="quick" if t != "p32" else "thorough", stubs=[stub], funcs=["%s::recip" % T, "%s::rem" % T, "%s::div_euclid" % T, "%s::rem_euclid" % T], space_bits=2 * n + 2,
           bound="every operand pair; integer division kernel replaced by its contract stub"),
         H("c16_%s_div_unstubbed" % t, "c16::%s::div_unstubbed" % t, unwind=uw, timeout=1200, tier="quick" if t != "p32" else "thorough", funcs=["%s::div" % T, "softposit::%s" % ("lldiv" if t == "p32" else "div")], space_bits=2 * n,
           bound="every operand pair, real division kernel, nothing asserted about the value"),
